@@ -3,10 +3,12 @@ package main
 import (
 	"fmt"
 	"go/token"
+	"go/types"
 	"sort"
 	"strings"
 
 	"golang.org/x/tools/go/ssa"
+	"golang.org/x/tools/go/ssa/ssautil"
 )
 
 // Static (dataflow / syntactic) discharge of frame, lock and spawn obligations.
@@ -27,6 +29,10 @@ func runStatic(prog *Prog, sc StaticCheck) *StaticResult {
 	switch sc.Kind {
 	case "codec-table":
 		return runCodecTable(prog, sc)
+	case "field-types":
+		return runFieldTypes(prog, sc)
+	case "global-frame":
+		return runGlobalFrame(prog, sc)
 	case "frame":
 		return runFrame(prog, sc)
 	case "gate":
@@ -43,6 +49,122 @@ func runStatic(prog *Prog, sc StaticCheck) *StaticResult {
 //   args: func = contract name; forbid = comma-separated store targets
 //         (T.f | elem:T | map:T | append:T | deref:T | global:x); allow_unknown = "yes" to tolerate
 //         calls with unknown effects (listed in the evidence as assumption).
+// runGlobalFrame: no function of the module other than the initialiser of sc.Pkg stores to any of the
+// listed locations (field "T.f", "elem:T", "append:T", "global:name"): the data they hold is
+// immutable after package initialisation, which is what lets an init postcondition be used as a global invariant.
+func runGlobalFrame(prog *Prog, sc StaticCheck) *StaticResult {
+	res := &StaticResult{Name: sc.Name, Kind: sc.Kind}
+	forbid := map[string]bool{}
+	for _, f := range strings.Split(sc.Args["forbid"], ",") {
+		if f = strings.TrimSpace(f); f != "" {
+			forbid[f] = true
+		}
+	}
+	initFn := prog.FindFunc(modPath+"/"+sc.Pkg, "init")
+	if initFn == nil {
+		res.Obligations = 1
+		res.Failures = append(res.Failures, "binding: initialiser of "+sc.Pkg+" not found")
+		return res
+	}
+	qual := func(p *types.Package) string { return p.Name() }
+	nfn := 0
+	var fns []*ssa.Function
+	for fn := range ssautil.AllFunctions(prog.SSA) {
+		if fn == initFn || fn.Blocks == nil {
+			continue
+		}
+		pk := fn.Pkg
+		for q := fn; pk == nil && q != nil; q = q.Parent() {
+			pk = q.Pkg
+		}
+		if pk == nil || !strings.HasPrefix(pk.Pkg.Path(), modPath) {
+			continue
+		}
+		fns = append(fns, fn)
+	}
+	sort.Slice(fns, func(i, j int) bool { return fns[i].String() < fns[j].String() })
+	for _, fn := range fns {
+		nfn++
+		res.Obligations++
+		bad := ""
+		for _, b := range fn.Blocks {
+			for _, in := range b.Instrs {
+				var what string
+				switch x := in.(type) {
+				case *ssa.Store:
+					if freshRoot(x.Addr, nil) {
+						continue
+					}
+					what = storeTarget(x.Addr)
+				case *ssa.Call:
+					if bi, ok := x.Call.Value.(*ssa.Builtin); ok && len(x.Call.Args) > 0 {
+						if st, ok := x.Call.Args[0].Type().Underlying().(*types.Slice); ok {
+							switch bi.Name() {
+							case "append":
+								what = "append:" + types.TypeString(st.Elem(), qual)
+							case "copy":
+								what = "elem:" + types.TypeString(st.Elem(), qual)
+							}
+						}
+					}
+				}
+				if what != "" && forbid[what] {
+					ps := prog.Fset.Position(in.Pos())
+					bad = fmt.Sprintf("%s writes %s at %s:%d", fn.String(), what, strings.TrimPrefix(ps.Filename, repoDir+"/"), ps.Line)
+				}
+			}
+		}
+		if bad != "" {
+			res.Failures = append(res.Failures, bad)
+			continue
+		}
+		res.Discharged++
+	}
+	res.Samples = append(res.Samples, map[string]interface{}{"obligation": fmt.Sprintf("every function of the module except %s.init#frame(no store to %s)", sc.Pkg, sc.Args["forbid"]), "backend": "static store scan", "functions": nfn})
+	res.Detail = map[string]interface{}{"functions_scanned": nfn, "forbid": sc.Args["forbid"]}
+	if nfn == 0 {
+		res.Obligations++
+		res.Failures = append(res.Failures, "no functions scanned (vacuous)")
+	}
+	return res
+}
+
+// runFieldTypes: every field of struct type T has one of the allowed types. Discharges the reachability of
+// "unsupported field type" panics in code that switches over the dynamic type of a reflected field pointer.
+func runFieldTypes(prog *Prog, sc StaticCheck) *StaticResult {
+	res := &StaticResult{Name: sc.Name, Kind: sc.Kind}
+	pkg := prog.SSAPkgs[modPath+"/"+sc.Pkg]
+	allowed := map[string]bool{}
+	for _, a := range strings.Split(sc.Args["allowed"], ",") {
+		allowed[strings.TrimSpace(a)] = true
+	}
+	var st *types.Struct
+	if pkg != nil {
+		if tn, ok := pkg.Members[sc.Args["type"]].(*ssa.Type); ok {
+			st, _ = tn.Type().Underlying().(*types.Struct)
+		}
+	}
+	if st == nil || st.NumFields() == 0 {
+		res.Obligations = 1
+		res.Failures = append(res.Failures, "binding: struct type "+sc.Args["type"]+" not found or empty")
+		return res
+	}
+	for i := 0; i < st.NumFields(); i++ {
+		f := st.Field(i)
+		res.Obligations++
+		ts := types.TypeString(f.Type(), func(p *types.Package) string { return p.Name() })
+		if !allowed[ts] {
+			res.Failures = append(res.Failures, fmt.Sprintf("%s.%s has type %s, outside {%s}", sc.Args["type"], f.Name(), ts, sc.Args["allowed"]))
+			continue
+		}
+		res.Discharged++
+	}
+	res.Samples = append(res.Samples, map[string]interface{}{"obligation": fmt.Sprintf("%s#field-types(%s)", sc.Args["type"], sc.Args["allowed"]), "backend": "go/types", "fields": st.NumFields()})
+	res.Trusted = append(res.Trusted, "reflect: Value.FieldByIndex(i).Addr().Interface() yields a pointer of the field's declared type")
+	res.Detail = map[string]interface{}{"type": sc.Args["type"], "fields": st.NumFields()}
+	return res
+}
+
 func runFrame(prog *Prog, sc StaticCheck) *StaticResult {
 	res := &StaticResult{Name: sc.Name, Kind: sc.Kind}
 	pkgPath := modPath + "/" + sc.Pkg
